@@ -225,6 +225,15 @@ func c18RacePhase(dir, id, tier string, seed uint64, knownPath string, agg *aggr
 		var ee *exec.ExitError
 		confirmed = errors.As(cerr, &ee) && ee.ExitCode() == 66
 	}
+	if !confirmed && agg != nil && agg.violation != nil {
+		// The report could not be tied to one run, so it decides nothing - but
+		// the plain phase holds a violation of its own (a monitor saw shared
+		// state change, a result differ), which is replayed and judged on its
+		// own evidence by the caller.
+		fmt.Fprintf(os.Stderr, "verif: race phase: a race was reported during run %d but 8 executions of that run alone report none; the report is set aside, the plain phase's violation (%s) is confirmed separately\n", first.run, agg.violation.Signature)
+		notes["race_phase"].(map[string]any)["unconfirmed_report_set_aside"] = true
+		return notes, nil
+	}
 	if !confirmed {
 		fmt.Fprintf(os.Stderr, "verif: the race detector reported a race during run %d but 8 executions of that run alone report none: not reproducible, no verdict\n%s\n", first.run, first.log)
 		os.Exit(2)
